@@ -232,13 +232,24 @@ def prog_scaler(n, pattern):
                 p = z3.If(p > u, u, p)
             c = xi - p
             comps.append(z3.If(c >= 0, c, -c))
-        run.assume(z3.Or(*[c > 0 for c in comps]))           # requires: non-zero projected gradient
-        r = it.call(it.lookup("utils.get_gradient_projection_unit_scaling"), [x, g, L, U], {})
-        rr = zreal(r)
+        # NO premise on the projected gradient: the solver calls the scaler on whatever start it is given, also a
+        # stationary one (all variables on their bounds with the gradient pushing outward, a converged restart, ...)
         mx = run.fresh("mx", R)
         run.assume(z3.And(z3.And(*[mx >= c for c in comps]), z3.Or(*[mx == c for c in comps])))
-        run.oblige(f"utils.get_gradient_projection_unit_scaling[n={n}]::ensures::inverse_of_max_change",
-                   z3.And(rr * mx == 1, rr > 0), ("C17",))
+        tag = f"utils.get_gradient_projection_unit_scaling[n={n}]"
+        try:
+            r = it.call(it.lookup("utils.get_gradient_projection_unit_scaling"), [x, g, L, U], {})
+        except PyExc as pe:
+            run.oblige(tag + "::ensures::finite_positive_factor_for_every_start", False, ("C17", "C04"),
+                       info=f"raises {pe.exc!r} (division by a zero projected gradient)")
+            return
+        if isinstance(r, float) and r in (INF, -INF):
+            run.oblige(tag + "::ensures::finite_positive_factor_for_every_start", False, ("C17", "C04"),
+                       info="returns an infinite factor")
+            return
+        rr = zreal(r)
+        run.oblige(tag + "::ensures::finite_positive_factor_for_every_start", rr > 0, ("C17", "C04"))
+        run.oblige(tag + "::ensures::inverse_of_max_change", z3.Implies(mx > 0, rr * mx == 1), ("C17",))
     return prog
 
 
